@@ -130,4 +130,5 @@ def encode(x):
     if isinstance(x, _dtm.datetime): return {"M": (x - _dtm.datetime(1970, 1, 1)) // _dtm.timedelta(microseconds=1), "u": "us"}
     if isinstance(x, _dtm.date): return {"M": (x - _dtm.date(1970, 1, 1)).days, "u": "D"}
     if isinstance(x, type): return {"type": x.__name__}
+    if type(x).__name__ == "Match" and hasattr(x, "span"): return {"l": ["re.Match", x.span()[0], x.span()[1], x.group(0)]}
     raise ValueError(f"encode: unsupported {type(x).__name__}: {x!r}")
